@@ -284,6 +284,10 @@ def make_point(rng, whole=True):
         rep = "cal"
         kw = gen.date_kwargs(MODE, "cal", rd)
     kw.pop("num_expanded_year_digits", None)
+    if rng.random() < 0.12:
+        # a point that carries expanded-year digits (as parsed from
+        # +002000-...): POSIX %Y is still the plain year
+        kw["num_expanded_year_digits"] = rng.choice((1, 2, 3))
     tk = gen.time_kwargs(rng, "hms" if whole else rng.choice(
         ("hms", "hmsf", "hm", "h")))
     kw.update(tk)
